@@ -573,11 +573,20 @@ fn gen_table(rng: &mut Rng, name: &str, existing: &[Tbl]) -> Tbl {
     if let Some(parent) = existing.last() {
         if rng.chance(1, 2) && !plain.is_empty() {
             let pc = parent.cols[0].name.clone();
+            // now and then a two-column key (SQLite records the pairs; it checks the target only when enforcing)
+            let two = plain.len() >= 2 && parent.cols.len() >= 2 && rng.chance(1, 3);
+            let (cols, ref_cols) = if two {
+                let mut p = plain.clone();
+                rng.shuffle(&mut p);
+                (vec![p[0].clone(), p[1].clone()], vec![pc, parent.cols[1].name.clone()])
+            } else {
+                (vec![rng.pick(&plain).clone()], vec![pc])
+            };
             t.fks.push(Fk {
                 name: Some(format!("fk_{name}")),
-                cols: vec![rng.pick(&plain).clone()],
+                cols,
                 ref_table: parent.name.clone(),
-                ref_cols: vec![pc],
+                ref_cols,
                 on_delete: if rng.coin() { Some(*rng.pick(&ACTIONS)) } else { None },
                 on_update: if rng.coin() { Some(*rng.pick(&ACTIONS)) } else { None },
             });
